@@ -12,7 +12,7 @@ import (
 	"verif/harness/script"
 )
 
-var cstrPieces = []string{"a", "b", "x", "select", " ", "%", "%s", "%d", "%w", "é", "日本", "\t", "\n", "'", "\"", "\\", "$1", "?", ";", "\x01", "\x7f", "ÿ", "Z", "E", "S\x01", "0", "-1"}
+var cstrPieces = []string{"a", "b", "x", "select", " ", "%", "%s", "%d", "%w", "é", "日本", "\t", "\n", "'", "\"", "\\", "$1", "?", ";", "\x01", "\x7f", "ÿ", "\xff", "\xe9", "\xc3", "\xf0\x9f", "Z", "E", "S\x01", "0", "-1"}
 
 // CString generates a string without NUL bytes, biased to small but
 // occasionally long and "interesting" contents.
@@ -47,10 +47,10 @@ func CString(maxLen int) *rapid.Generator[string] {
 	})
 }
 
-// clean keeps generated strings valid UTF-8 and NUL free, so that a case
-// survives its JSON round trip into a replay file unchanged.
+// clean keeps generated strings NUL free (they travel as C strings). They need not be valid UTF-8:
+// core.MarshalCase escapes such strings so that a case survives its JSON round trip unchanged.
 func clean(s string) string {
-	return strings.ReplaceAll(strings.ToValidUTF8(s, "?"), "\x00", "")
+	return strings.ReplaceAll(s, "\x00", "")
 }
 
 // NonEmptyCString is CString without the empty string.
